@@ -25,6 +25,9 @@ func init() {
 			for k := w - 1; k >= 0; k-- {
 				r = f.Ite(f.BvCmp(OBvUlt, x, f.BV(w, 1<<uint(k))), f.BV(64, uint64(k)), r)
 			}
+			if k, ok := i.determined(r); ok {
+				return int(k.Int64())
+			}
 			return fixType(types.Typ[types.Int], r)
 		}
 	}
